@@ -123,8 +123,16 @@ fn base_params(r: &mut Runner, k: &TxKindSel) -> (&'static str, serde_json::Map<
             "brc20_call"
         }
         TxKindSel::Transact => {
-            let n = r.account_nonce(signer_addr(3));
-            let raw = sign_legacy(3, Some(crate::driver::chain_id()), n, alloy::primitives::TxKind::Create, hex::decode(&code[2..]).unwrap());
+            // prefer a signer who has transactions waiting in the pool: a rejected call must not touch them
+            let pool = r.inst.call("txpool_content", json!([]));
+            let mut who = 3u8;
+            for s in 0..3u8 {
+                if pool.ok().map(|v| v["pending"][addr_hex(signer_addr(s))].as_object().map(|m| !m.is_empty()).unwrap_or(false)).unwrap_or(false) {
+                    who = s;
+                }
+            }
+            let n = r.account_nonce(signer_addr(who));
+            let raw = sign_legacy(who, Some(crate::driver::chain_id()), n, alloy::primitives::TxKind::Create, hex::decode(&code[2..]).unwrap());
             p.insert("raw_tx_data".into(), json!(format!("0x{}", hex::encode(raw))));
             "brc20_transact"
         }
